@@ -18,7 +18,7 @@ EXTRA = {
     "C10": " Also: the bytes returned by MarshalText are re-read after other paths were printed/marshalled and then overwritten by the caller. Regular-expression and format metacharacters as markers and noise; paths of 250..1025 components.",
     "C11": " Also: histories of 2..4 calls on one Worker mixing 64 KiB+ data and cancelled calls; 2..8 goroutines calling Mine on one shared Worker. Digest function as a drawn configuration value (pow.Hash); storms of pre-cancelled calls from 4..16 goroutines.",
     "C12": " Also: len*target up to 2^64 with lanes at the exact soundness boundary (smallest hash values whose difficulty is len*target-1) and at every magnitude above the target hash; concurrent callers on one shared Worker.",
-    "C13": " Also: 2..5 calls issued back to back (uncancelled right after cancelled) under GOMAXPROCS 1..16; 300..600 successive successful calls in one process. Contexts ending by deadline; digest function as configuration value. Data of 100..5000 bytes.",
+    "C13": " Also: 2..5 calls issued back to back (uncancelled right after cancelled) under GOMAXPROCS 1..16; 300..600 successive successful calls in one process. Contexts ending by deadline; digest function as configuration value. Data of 100..5000 bytes. Context kinds: Background, a non-standard Context implementation (optionally yielding inside Done/Err), grandchild with values, cancel-with-cause.",
     "C14": " Also: first calls into the codecs made by 2..8 goroutines at once in 8 fresh child processes per case. Destinations of exactly DecodedLen bytes; 64..128 KiB inputs under GOMAXPROCS 1..16.",
     "C15": " Also: leaf counts 1000..9000 under GOMAXPROCS 1..32 (powers of two and others); 2..8 goroutines sharing one Hasher. All 17 linked hash functions; leaves marshalling to nil and through one shared scratch buffer. Leaf types that also implement io.WriterTo / io.Reader / Bytes / String / MarshalText / GobEncode / MarshalJSON with other content; the first leaf error must come back as that error (errors.As).",
     "C16": " Also: neighbours at distance <= 4 constructed (meet in the middle) to have the same 32-bit FNV-1a/FNV-1 hash and length as the valid string, decoded right after it; one goroutine decoding a corrupted copy while others decode valid strings of the same prefix; zero-register prefixes. Upper-case strings edited with the charset's own lower-case characters (while an upper-case letter remains); well-known network prefixes.",
